@@ -408,3 +408,26 @@ package client
 //@   ensures [C14:permission-refresh-interval] res.refreshPermsTimer != nil && res.refreshPermsTimer.id == timerIDRefreshPerms && res.refreshPermsTimer.interval == (config.PermissionRefreshInterval != 0 ? config.PermissionRefreshInterval : defaultPermRefreshInterval)
 //@   ensures [C14:binding-check-interval] res.checkBindingsTimer != nil && res.checkBindingsTimer.interval == (config.BindingCheckInterval != 0 ? config.BindingCheckInterval : defaultBindingCheckInterval) && res.bindingRefreshInterval == (config.BindingRefreshInterval != 0 ? config.BindingRefreshInterval : defaultBindingRefreshInterval)
 //@   ensures [C13:starts-empty] res.bindingMgr != nil && res.bindingMgr.next == 0x4000 && (forall n :: !haskey(res.bindingMgr.chanMap, n)) && (forall k :: !haskey(res.bindingMgr.addrMap, k)) && res.permMap != nil && (forall k :: !haskey(res.permMap.permMap, k))
+
+//@      // ---- C18: lock discipline ("guarded by") of the client-side tables and fields
+//@ guarded client.TransactionMap.trMap by client.TransactionMap.mutex
+//@ guarded client.permissionMap.permMap by client.permissionMap.mutex
+//@ guarded client.bindingManager.chanMap by client.bindingManager.mutex
+//@ guarded client.bindingManager.addrMap by client.bindingManager.mutex
+//@ guarded client.bindingManager.next by client.bindingManager.mutex
+//@ guarded client.allocation._nonce by client.allocation.mutex
+//@ guarded client.allocation._lifetime by client.allocation.mutex
+//@ guarded client.binding._refreshedAt by client.binding.mutex
+//@ guarded client.PeriodicTimer.stopFunc by client.PeriodicTimer.mutex
+//@ guarded client.Transaction.nRtx by client.Transaction.mutex
+//@ guarded client.Transaction.interval by client.Transaction.mutex
+//@ guarded client.Transaction.timer by client.Transaction.mutex
+//@ func (*bindingManager).assignChannelNumber
+//@   lockonly
+//@   entry-held mgr.mutex
+//@ func NewTCPAllocation
+//@   lockonly
+//@ func newBindingManager
+//@   lockonly
+//@ func newPermissionMap
+//@   lockonly
